@@ -268,6 +268,7 @@ class Check:
         self.violations = []      # (sig, detail, replay path)
         self.known_hits = {}      # sig -> (entry, count)
         self.drift = {}           # sig -> count
+        self.timeout_retries = 0
         self.agree = 0
         self.model_runs = []
         self.assumptions = []
@@ -367,6 +368,17 @@ class Check:
         n = len(results)
         for idx, (c, e) in enumerate(zip(cases, results)):
             self.evaluations += 1
+            if e.get("timeout") and self.timeout_retries < 20:
+                # a case that ran out of its budget in the loaded worker pool is confirmed alone, with a larger budget, before it counts
+                self.timeout_retries += 1
+                try:
+                    e2 = self.replay(driver, [c], "timeout_retry_%d" % self.timeout_retries, workers=1, timeout="240s")[0]
+                    if not e2.get("timeout"):
+                        self.notes.append("a %s case timed out in the pool and completed when re-run alone: judged by the second run" % driver)
+                        e = e2
+                        results[idx] = e2
+                except MachineryError:
+                    pass
             out = e.get("out") or {}
             key = out.get("key") or json.dumps(c, sort_keys=True)
             if out.get("skip"):
